@@ -36,16 +36,16 @@ print(json.dumps([impl.run_observed(t, w) for t, w in texts]))
 """
 
 
-def fresh(cases):
+def fresh(cases, flags=()):
     env = dict(os.environ)
-    p = subprocess.run(["/venv/bin/python", "-c", FRESH, str(fw.REPO), str(fw.ROOT)], input=json.dumps(cases).encode(),
+    p = subprocess.run(["/venv/bin/python", *flags, "-c", FRESH, str(fw.REPO), str(fw.ROOT)], input=json.dumps(cases).encode(),
                        stdout=subprocess.PIPE, stderr=subprocess.PIPE, env=env, timeout=600)
     return json.loads(p.stdout.decode().strip().splitlines()[-1])
 
 
 def corpus(ctx):
     rng = ctx.sub("corpus")
-    prof = gen.Profile(max_tracks=2, max_groups=8)
+    prof = gen.Profile(max_tracks=2, max_groups=8, meta_fields=0.5, dup_fields=0.35)
     cases = []
     for _ in range(ctx.n(24, 300)):
         src = gen.rand_src(rng, prof)
@@ -78,13 +78,16 @@ def slice(ctx: fw.Ctx) -> fw.Outcome:
     with ThreadPoolExecutor(jobs) as ex:
         ref = [r for b in ex.map(fresh, batches) for r in b]
     singles_idx = ctx.sub("singles").sample(range(len(cases)), min(len(cases), ctx.n(8, 120)))
+    # the single parses also vary the interpreter's own switches: the result is a function of the text, not of -O / -OO
+    switches = [(), ("-O",), ("-OO",)]
     with ThreadPoolExecutor(jobs) as ex:
-        singles = list(ex.map(lambda k: fresh([cases[k]])[0], singles_idx))
-    for k, s in zip(singles_idx, singles):
-        out.case("F" + fw.h(cases[k]), False, None, tags=["fresh-single"])
+        singles = list(ex.map(lambda jk: fresh([cases[jk[1]]], switches[jk[0] % 3])[0], enumerate(singles_idx)))
+    for j, (k, s) in enumerate(zip(singles_idx, singles)):
+        sw = " ".join(switches[j % 3]) or "default switches"
+        out.case("F" + fw.h(cases[k]), False, None, tags=["fresh-single" + "".join(switches[j % 3])])
         if s != ref[k]:
-            out.violation("fresh-" + fw.h(cases[k]), "a chart parsed alone in a fresh interpreter differs from the same chart parsed after others in another fresh interpreter",
-                          {"op": "history", "cases": [list(c) for c in batches[k // per][: k % per + 1]]}, observed=s[:200], promised=ref[k][:200])
+            out.violation("fresh-" + fw.h(cases[k]), f"a chart parsed alone in a fresh interpreter ({sw}) differs from the same chart parsed after others in another fresh interpreter",
+                          {"op": "history", "cases": [list(c) for c in batches[k // per][: k % per + 1]], "switches": list(switches[j % 3])}, observed=s[:200], promised=ref[k][:200])
     # The Lean side of C17 is the memoisation argument and the state inventory; the whole-chart model is *not* compared here:
     # a change to what a parse computes is another property's business, C17 is about the same text giving the same result.
     # (b) in-process histories
